@@ -103,9 +103,11 @@ func writeEvidence(e *engine, results []*harnessResult, known []knownFinding, wa
 		fns = append(fns, f)
 	}
 	sort.Strings(fns)
-	var repoFns, libFns, other []string
+	var repoFns, libFns, other, models []string
 	for _, f := range fns {
 		switch {
+		case strings.HasPrefix(f, "model:"):
+			models = append(models, strings.TrimPrefix(f, "model:"))
 		case strings.HasPrefix(f, "note:") || strings.HasPrefix(f, "redirect:"):
 			other = append(other, f)
 		case strings.Contains(f, "github.com/tsawler/tabula"):
@@ -151,9 +153,11 @@ func writeEvidence(e *engine, results []*harnessResult, known []knownFinding, wa
 		"solver": map[string]interface{}{"z3": toolVersion("z3", "--version"), "portfolio": []string{"cvc5 " + toolVersion("cvc5", "--version"), "z3-new " + toolVersion("z3-new", "--version")},
 			"total_s": round3(solverTotal), "max_query_s": round3(solverMax)},
 		"load_and_ssa_build_s": round3(e.loadTime.Seconds()),
+		"environment_models_used": append([]string{}, models...),
 		"trusted_base": []string{"go/ssa construction (x/tools v0.29.0)", "symgo interpreter and term simplifier", "z3 4.8.12",
 			"intrinsic models: internal/bytealg index/compare/count, strings.Builder.String, strings.ToLower/ToUpper (ASCII), unicode.Is* on ASCII symbolic runes, unicode.IsSpace, fmt.Sprintf/Errorf, errors.Is/Unwrap, sort.Slice (insertion sort), math.Sqrt/Abs/Min/Max/Floor/Ceil over reals, strconv.ParseFloat decimal grammar, UTF-8 range/convert",
-			"host-native calls on concrete arguments: regexp, strconv.ParseFloat/FormatFloat, strings.*, unicode.*, math.*, html.(Un)EscapeString, sort.Strings/Ints/Float64s"},
+			"host-native calls on concrete arguments: regexp, strconv.ParseFloat/FormatFloat, strings.*, unicode.*, math.*, html.(Un)EscapeString, sort.Strings/Ints/Float64s",
+			"environment models where listed under coverage.environment_models_used: encoding/xml unmarshal type walk (tokeniser is the real code), zip member content, os.File content and handle accounting"},
 	}
 	ev := map[string]interface{}{
 		"property_id": e.prop,
